@@ -227,7 +227,9 @@ M9 = (" Additionally the repository's own test-suite is run as a workload with t
       "(M9, vf/mon/pytest_plugin.py: quick = ten test modules, thorough = whole suite): ")
 # sentences appended to the level text (workloads added during the build)
 ADDENDA = {
-    "C07": M9 + "every object returned by load_one / load_many has consistent shapes and the file is closed afterwards.",
+    "C07": " Sectioned formats (FCHK, WFX): every section of corpus files covering every section label is emptied and resized (0, n-1, "
+           "n+1, 2n, 1 values with a matching header count)." + M9
+           + "every object returned by load_one / load_many has consistent shapes and the file is closed afterwards.",
     "C08": M9 + "a FileFormatError / PrepareDumpError from dump_one leaves the target path byte-identical.",
     "C09": M9 + "deep snapshot of every object passed to dump_one / dump_many / write_input before vs after the call.",
     "C11": M9 + "every loaded object satisfies charge = sum(core charges) - nelec.",
@@ -235,11 +237,16 @@ ADDENDA = {
            + "every loaded object carries its module's guaranteed attributes.",
     "C16": " (d) per format, every generated file of every model class of the specification-following writers is loaded - and per dump "
            "format generated objects of every class are dumped - in shuffled orders with repetitions in one interpreter and compared "
-           "with fresh-interpreter baselines (state kept in closures / caches, invisible to the table snapshots, shows there).",
+           "with fresh-interpreter baselines (state kept in closures / caches, invisible to the table snapshots, shows there); (e) "
+           "objects built once per interpreter and dumped to several formats in shuffled order vs each dump alone in a fresh interpreter; "
+           "(f) failure histories: ~1500 loads of numerically damaged files with tables, interpreter-global settings and healthy calls "
+           "re-checked in between.",
     "C18": " Numerically pathological inputs (1e308, nan, inf in one frame) drive the CLI's floating-point trap: the admitted "
-           "'CLI error where the API succeeds' branch is observed and counted.",
+           "'CLI error where the API succeeds' branch is observed and counted. Symbolic links as input / output names, in-place "
+           "conversions, a reused scratch name and working directories whose names contain pattern text (relative names) are covered.",
     "C15": " Floats are compared at bit level including the sign of zero; generated geometries contain noise around zero and signed "
-           "zeros; QCSchema objects include user-built ones with None-only / empty nested dictionaries.",
+           "zeros; QCSchema objects include user-built ones with None-only / empty nested dictionaries; besides the corpus, vendor-shaped "
+           "files of every model class of the specification-following writers go through the cycles into all 13 formats.",
     "C02": " A third of the generated objects carry equal arrays in Fortran order / strided / reversed views.",
 }
 
